@@ -67,11 +67,25 @@ func mainEngine(o *Out, scnFile string, seed int64, count int, modes string, var
 				agree = flowRunAgrees(cfg, func() Script { return scriptForGenerated(cfg) }, evs)
 			}
 		}
+		reent := true
+		if id%4 == 1 && !cfg.Cancel {
+			// every fourth scenario is executed once more with a run of the same node object nested into an exec callback
+			if src == "tlc" {
+				reent = nestedRunInvisible(cfg, func() Script { return scriptFromHistory(exp) }, evs)
+			} else {
+				reent = nestedRunInvisible(cfg, func() Script { return scriptForGenerated(cfg) }, evs)
+			}
+		}
 		fam := "engine"
 		if cfg.zeroBudget() {
 			fam = "enginezero" // no verdict: trace validation against the specification only
 		}
-		o.WriteScenarioX(id, fam, src, cj, exp, evs, agree)
+		for _, x := range cfg.Outs {
+			if x == "panic" {
+				fam = "enginepanic" // judged only on what a run that does return must satisfy
+			}
+		}
+		o.WriteScenarioY(id, fam, src, cj, exp, evs, agree, reent)
 	}
 	if rp := opts["replay"]; rp != "" {
 		// re-execute recorded scenarios (same configuration, same script) on the current tree
@@ -94,7 +108,19 @@ func mainEngine(o *Out, scnFile string, seed int64, count int, modes string, var
 			} else {
 				agree = flowRunAgrees(cfg, func() Script { return scriptForGenerated(cfg) }, evs)
 			}
-			o.WriteScenarioX(asInt(line["scn"]), "engine", asStr(line["src"]), cfg.toJSON(), exp, evs, agree)
+			fam := asStr(line["fam"])
+			if fam == "" {
+				fam = "engine"
+			}
+			reent := true
+			if !cfg.Cancel {
+				if asStr(line["src"]) == "tlc" {
+					reent = nestedRunInvisible(cfg, func() Script { return scriptFromHistory(exp) }, evs)
+				} else {
+					reent = nestedRunInvisible(cfg, func() Script { return scriptForGenerated(cfg) }, evs)
+				}
+			}
+			o.WriteScenarioY(asInt(line["scn"]), fam, asStr(line["src"]), cfg.toJSON(), exp, evs, agree, reent)
 		}
 		return
 	}
